@@ -159,6 +159,7 @@ def handler_rules(rep, u, vals):
     rep.functions.add(fpre.name)
 
     def calls_sig(f):
+        """(effect, record) of every registration call - by what the call does, not by which spelling of the API is used"""
         out = set()
         for pos, root, c, ps in f.calls():
             nm = c.get("fn") or ""
@@ -166,13 +167,21 @@ def handler_rules(rep, u, vals):
                 continue
             last = core.strip_casts(c["args"][-1]) if c["args"] else None
             recf = core.strip_casts(last["e"])["f"] if last is not None and last.get("k") == "un" and core.strip_casts(last["e"]).get("k") == "mem" else None
-            en_ = const_val(c["args"][0]) if c["args"] else None
-            out.add((nm.replace("_q_", "_"), en_, recf))
+            if nm == "tp_task_stop":
+                eff = "stop"
+            elif "_del_" in nm:
+                eff = "remove"
+            elif "_add_" in nm:
+                eff = "enable"
+            elif "enable" in nm:
+                eff = {0: "disable", 1: "enable"}.get(const_val(c["args"][0]) if c["args"] else None, "?")
+            else:
+                eff = nm
+            out.add((eff, recf))
         return out
     pre, post = calls_sig(fpre), calls_sig(fp)
-    want_pre = {("tpt_ev_enable_args1", 0, "tp_data"), ("tpt_ev_enable_args1", 0, "tp_timer"), ("tpt_ev_del_args1", vals["TP_EV_TIMER"], "tp_timer"),
-                ("tp_task_stop", None, None)}
-    want_post = {("tpt_ev_enable_args", 1, "tp_timer"), ("tpt_ev_enable_args1", 1, "tp_data")}
+    want_pre = {("disable", "tp_data"), ("disable", "tp_timer"), ("remove", "tp_timer"), ("stop", None)}
+    want_post = {("enable", "tp_timer"), ("enable", "tp_data")}
     okp = pre == want_pre and post == want_post
     (rep.proved if okp else rep.violated)("R-SIB", fpre, "pre-post-symmetry",
                                           "the pre-handler disables/removes the opposite source and the post-handler re-enables exactly those",
@@ -193,7 +202,12 @@ def disable_enable_cases(rep, u, vals):
         out = {"tp_data": [], "tp_timer": []}
         for pos, root, c, ps in fn.calls():
             nm = c.get("fn") or ""
-            if "enable_args" not in nm or not c["args"] or const_val(c["args"][0]) != enable:
+            if not c["args"]:
+                continue
+            if "_add_args" in nm and nm.startswith("tpt_ev_"):
+                if enable != 1:
+                    continue                      # adding (arming) a registration enables it
+            elif "enable_args" not in nm or const_val(c["args"][0]) != enable:
                 continue
             last = core.strip_casts(c["args"][-1])
             if last.get("k") == "un" and core.strip_casts(last["e"]).get("k") == "mem":
@@ -382,6 +396,13 @@ def run(rep, tier):
     handler_rules(rep, u, vals)
     lifecycle(rep, u, vals)
     rep.floor("pre/post combinations", disable_enable_cases(rep, u, vals), 10)
+    from props import c16_audit
+    rep.floor("timer removals in tp_task_stop", c16_audit.stop_timer_rule(rep, u, vals), 1)
+    rep.floor("(re-)registrations of the task's own event", c16_audit.own_event_flags_rule(rep, u), 3)
+    rep.floor("timer arming after a callback", c16_audit.timer_arm_rule(rep, u, vals), 1)
+    rep.floor("errno overwrites of the event error", c16_audit.event_error_live_rule(rep, u), 1)
+    rep.floor("positional transfers", c16_audit.seek_fallback_rule(rep, u), 2)
+    rep.floor("re-arming calls in connect-ex", c16_audit.cursor_clobber_rule(rep, u), 1)
     return driver.finish(
         rep, "other",
         "Static analysis of threadpool_task.c. Decided: %d registration calls agree on (event kind, record); single non-cyclic "
